@@ -36,12 +36,15 @@ Print Assumptions C20_block_roundtrip.
 (* ------------------------------------------------------------------ cell / point classification *)
 (* FULL statement intended by the property: for every domain whose element and node counts are not multiples of each
    other, a vector of c*nel entries is cell data and a vector of c*nnodes entries is point data.
-   The second half is FALSE for the code (and the faithful model): C20_classification_literal_refuted.
-   Proved: the statement with the hypothesis on the sizes in play, nel does not divide c*nnodes. *)
-Theorem C20_classification_partial : forall g shape c, wf g ->
+   For plain vectors (anything but 2-D arrays; sorted by total size, cell asked first) the second half is FALSE for the
+   code and the faithful model: C20_classification_literal_refuted (sizes that fit both counts are inherently
+   ambiguous).  Proved: the statement with the hypothesis on the sizes in play, nel does not divide c*nnodes. *)
+Theorem C20_classification_partial : forall g shape c, wf g -> length shape <> 2%nat ->
   (size shape = c * nel g -> classify g shape = Cell) /\
   (size shape = c * nnodes g -> (c * nnodes g) mod nel g <> 0 -> classify g shape = Point).
-Proof. intros g shape c Hwf. exact (conj (classify_cell g shape c Hwf) (classify_point g shape c Hwf)). Qed.
+Proof.
+  intros g shape c Hwf H2. exact (conj (classify_cell g shape c Hwf H2) (classify_point g shape c Hwf H2)).
+Qed.
 Print Assumptions C20_classification_partial.
 
 Theorem C20_classification_literal_refuted :
@@ -50,8 +53,18 @@ Theorem C20_classification_literal_refuted :
 Proof. exact classification_literal_refuted. Qed.
 Print Assumptions C20_classification_literal_refuted.
 
+(* block vectors (2-D arrays) are sorted by the length of their AXES (repaired code, F21): an axis of c*nel entries
+   makes cell data; an axis of c*nnodes entries makes point data as soon as no axis is a multiple of nel -- the total
+   size plays no role any more *)
+Theorem C20_classification_blocks : forall g k c, wf g ->
+  (classify g [k; c * nel g] = Cell /\ classify g [c * nel g; k] = Cell) /\
+  (k mod nel g <> 0 -> (c * nnodes g) mod nel g <> 0 ->
+   classify g [k; c * nnodes g] = Point /\ classify g [c * nnodes g; k] = Point).
+Proof. intros g k c Hwf. exact (conj (classify_block_cell g k c Hwf) (classify_block_point g k c Hwf)). Qed.
+Print Assumptions C20_classification_blocks.
+
 Theorem C20_neither_is_skipped : forall g shape,
-  size shape mod nel g <> 0 -> size shape mod nnodes g <> 0 -> classify g shape = Skip.
+  Forall (fun s => s mod nel g <> 0 /\ s mod nnodes g <> 0) (class_sizes shape) -> classify g shape = Skip.
 Proof. exact classify_skip. Qed.
 Print Assumptions C20_neither_is_skipped.
 
@@ -176,7 +189,7 @@ Proof. exact parse_dec_zpad. Qed.
 Print Assumptions C20_iteration_number_parses.
 
 (* ------------------------------------------------------------------ ScalarToFile *)
-(* a history of n >= 1 calls whose logged values keep tags, shapes and entry counts (arrays have more than one entry):
+(* a history of n >= 1 calls whose logged values keep tags, shapes and entry counts (arrays are not empty; `loggable`):
    the run succeeds, the file has the header line and n rows, row k is  k, then the formatted values of call k in the
    order they are visited, and has as many columns as the header has names *)
 Theorem C20_log_shape : forall (V : Type) (fmt : V -> str) sep c0 rest,
@@ -216,30 +229,37 @@ Theorem C20_log_row_parses : forall c k texts, 0 <= k -> ~ is_digit c -> Forall 
 Proof. exact row_parses. Qed.
 Print Assumptions C20_log_row_parses.
 
-(* ------------------------------------------------------------------ defects reproduced by the faithful model *)
-(* FULL statement (blocks): every block whose vector axis is c*nnodes long is written as point data, one array per
-   vector.  Proved above for the sizes where the total size is not a multiple of nel (C20_block_vectors is applied by
-   vti_arrays only after `classify` on the TOTAL size).  Refuted in general: *)
-Theorem C20_block_total_size_refuted :
-  exists g k c, wf g /\ 1 < k /\ k mod nel g <> 0 /\ k mod nnodes g <> 0 /\ (c * nnodes g) mod nel g <> 0 /\
-    forall key ws, vti_arrays g [(key, [k; c * nnodes g], ws)] = Err TypeError.
-Proof. exact block_total_size_refuted. Qed.
-Print Assumptions C20_block_total_size_refuted.
+(* ------------------------------------------------------------------ repaired defects (F21, F22, F23): what holds now *)
+(* F21: a block of k nodal vectors (k x c*nnodes) goes through the whole of write_to_vti as k point arrays whenever no
+   axis is a multiple of nel; C20_block_point_arrays_witness: the hypotheses hold for the former failing input, the
+   2 x 18 block on the 2 x 2 grid, whose total size 36 is a multiple of nel = 4 *)
+Theorem C20_block_point_arrays : forall g key k c ws,
+  wf g -> 1 < k -> k mod nel g <> 0 -> k mod nnodes g <> 0 -> (c * nnodes g) mod nel g <> 0 ->
+  vti_arrays g [(key, [k; c * nnodes g], ws)] =
+  Ok (map (fun i => mk_array true (true && (c =? 2) && (dim g =? 2)) (nnodes g) c (vec_name true k key i)
+                             (block_row (c * nnodes g) i ws)) (zrange k)).
+Proof. exact block_point_arrays. Qed.
+Print Assumptions C20_block_point_arrays.
 
-(* FULL statement: a block with a single 2-component nodal vector on a 2-D domain is padded like a plain vector.
-   Refuted (C20_block_vectors needs 1 < k, C20_components needs a 1-D array): *)
-Theorem C20_single_vector_block_refuted : forall n key ws, 1 < n ->
-  entry_arrays true true n key [1; 2 * n] ws = Err ValueError /\
-  entry_arrays true true n key [2 * n; 1] ws = Err ValueError.
-Proof. exact single_vector_block_refuted. Qed.
-Print Assumptions C20_single_vector_block_refuted.
+Example C20_block_point_arrays_witness :
+  let g := {| nelx := 2; nely := 2; nelz := 0 |} in
+  wf g /\ 2 mod nel g <> 0 /\ 2 mod nnodes g <> 0 /\ (2 * nnodes g) mod nel g <> 0 /\ (2 * (2 * nnodes g)) mod nel g = 0.
+Proof. exact block_point_arrays_witness. Qed.
 
-(* FULL statement: every array of logged values gets one column per entry.  Refuted for arrays with exactly one entry
-   (C20_log_shape needs `loggable`: more than one entry): *)
-Theorem C20_log_single_entry_refuted : forall (V : Type) (fmt : V -> str) sep st tag x fo rest_sigs rest_calls,
-  log_run V fmt sep st (((tag, LArr [1] [x] fo) :: rest_sigs) :: rest_calls) = Err TypeError.
-Proof. exact single_entry_refuted. Qed.
-Print Assumptions C20_log_single_entry_refuted.
+(* F22: a block with a single vector (1 x c*n or c*n x 1) is written exactly like the plain vector of c*n entries,
+   3-component padding included (compare C20_components) *)
+Theorem C20_single_vector_block : forall point dim2 n key ws c, 1 < n ->
+  entry_arrays point dim2 n key [1; c * n] ws = Ok [mk_array point (point && (c =? 2) && dim2) n c key ws] /\
+  entry_arrays point dim2 n key [c * n; 1] ws = Ok [mk_array point (point && (c =? 2) && dim2) n c key ws].
+Proof. exact entry_single_vector_block. Qed.
+Print Assumptions C20_single_vector_block.
+
+(* F23: an array with exactly one entry is logged as one column named tag[0] (C20_log_shape covers it: `loggable`
+   only asks for arrays that have entries) *)
+Theorem C20_log_single_entry : forall (V : Type) (fmt : V -> str) tag x fo,
+  sig_cols V fmt tag (LArr [1] [x] fo) = Ok [(tag ++ s2z "[0]", fmt x)].
+Proof. exact single_entry_logged. Qed.
+Print Assumptions C20_log_single_entry.
 
 (* ------------------------------------------------------------------ non-vacuity *)
 Definition G (a b c : Z) : grid := {| nelx := a; nely := b; nelz := c |}.
